@@ -556,6 +556,8 @@ def compare(I, op, a, b):
         r = _eq(I, a, b)
         if isinstance(r, Tensor):
             return Tensor(r.shape, [sym_not(x) for x in r.data], "bool")
+        if hasattr(r, "pw_map"):
+            return r.pw_map(I, sym_not)
         return sym_not(r)
     if op == "In":
         return contains(I, b, a)
